@@ -176,6 +176,194 @@ theorem C05_pass_converges_partial (env env' : Env) (fuel : Nat) (s : St) (r : R
     (pinv_init hS hS' hL hset hG.1 hk hfile hdir hnotified) hlive (topo_nodup hk)
     (depsFirst_of_topo hG.1 hrank hk) hmiss hret hrewire
 
+/-! ## Concrete instances: non-vacuity, and the two refutations of the unrestricted statement -/
+
+/-- scripts of a tiny asset type, as bytes: `[n]` is the script `n`, `[n, 0]` is `n +S0:e`,
+`[n, _]` is `n +S0:n` -/
+def exToks : List UInt8 → Option (List Tok)
+  | [n] => some [.lit n.toNat]
+  | [n, t] => some [.lit n.toNat, .load 0 (if t = 0 then "e" else "n")]
+  | _ => none
+
+/-- read `id.s`, interpret the script (`scriptProg` of `Model/Types.lean`) -/
+def exProg (id : String) : Prog :=
+  .read id "s" fun r =>
+    match r with
+    | .error e => .fail (.io e)
+    | .ok bytes =>
+      match exToks bytes with
+      | none => .fail (.custom "parse")
+      | some toks => scriptProg toks 0
+
+/-- a source with the files `b.s`, `e.s` and `n.s` (always the script `0 +S0:e`); one hot-reloaded
+type; a cache with reloader -/
+def exEnv (b e : List UInt8) : Env :=
+  { read := fun _ id ext =>
+      if id = "b" ∧ ext = "s" then .ok b
+      else if id = "e" ∧ ext = "s" then .ok e
+      else if id = "n" ∧ ext = "s" then .ok [0, 0]
+      else .error ⟨true, "NotFound", id⟩
+    readDir := fun _ _ => .ok []
+    types := fun _ => { hot := true, prog := exProg }
+    hasReloader := true }
+
+def kb : Key := ⟨0, "b"⟩
+def ke : Key := ⟨0, "e"⟩
+
+theorem exEnv_steady (b e : List UInt8) : (exEnv b e).Steady := ⟨fun _ _ _ _ => rfl, fun _ _ _ => rfl, fun _ _ => rfl⟩
+theorem exEnv_same (b e b' e' : List UInt8) : SameLoaders (exEnv b e) (exEnv b' e') := ⟨rfl, rfl, fun _ _ => rfl⟩
+
+/-- files rank above assets -/
+def exRank : Dep → Nat
+  | .asset k => if k = kb then 0 else 1
+  | _ => 2
+
+/-- a cache holding `e` and `b` with the given values -/
+def exSt (vb ve : Int) : St :=
+  { map := [(ke, ⟨.int ve, true, 0, false, 0⟩), (kb, ⟨.int vb, true, 0, false, 1⟩)], next := 2 }
+
+/-- `b = 1 +S0:e`, `e = 10`, both loaded; `e.s` has been edited and notified -/
+def exChain : RSt :=
+  { graph := (Graph.insertAsset [] (.asset ke) [.file "e" "s"]).insertAsset (.asset kb) [.file "b" "s", .asset ke],
+    toReload := [.file "e" "s"] }
+
+theorem exChain_graphOK : GraphOK exChain.graph :=
+  C05_insert_keeps_inverse _ (C05_insert_keeps_inverse [] graphOK_nil (.asset ke) [.file "e" "s"]) (.asset kb)
+    [.file "b" "s", .asset ke]
+
+/-- **Non-vacuity** of `C05_pass_converges_partial`: the chain `b → e`, `e.s` edited from `10` to
+`20`: all hypotheses hold; the computed pass gives `e = 20`, `b = 21`. -/
+example :
+    Settled (exEnv [1, 0] [20]) 10 (runUpdate (exEnv [1, 0] [20]) 10 (exSt 11 10) exChain).1
+      (runUpdate (exEnv [1, 0] [20]) 10 (exSt 11 10) exChain).2.graph ∧
+    (runUpdate (exEnv [1, 0] [20]) 10 (exSt 11 10) exChain).2.dead = false :=
+  C05_pass_converges_partial (exEnv [1, 0] [10]) (exEnv [1, 0] [20]) 10 (exSt 11 10) exChain [.file "e" "s"]
+    (rank := exRank) (exEnv_steady _ _) (exEnv_steady _ _) (exEnv_same _ _ _ _)
+    (settled_of_check (by decide)) exChain_graphOK (rank_of_entries (by decide)) rfl (by decide)
+    (by
+      intro id ext h
+      simp only [exEnv]
+      split
+      · rfl
+      · split
+        · rename_i h2; exact absurd (by rw [h2.1, h2.2]; exact List.mem_singleton.mpr rfl) h
+        · rfl)
+    (fun _ _ => rfl) (by decide)
+    (noMiss_of_check (by decide)) (reloadsReturn_of_check (by decide)) (noRewire_of_check (by decide))
+
+/-- the conclusion, checked on the computed pass -/
+example :
+    (runUpdate (exEnv [1, 0] [20]) 10 (exSt 11 10) exChain).1.lookup ke = some ⟨.int 20, true, 1, true, 0⟩ ∧
+    (runUpdate (exEnv [1, 0] [20]) 10 (exSt 11 10) exChain).1.lookup kb = some ⟨.int 21, true, 1, true, 1⟩ ∧
+    settledB (exEnv [1, 0] [20]) 10 (runUpdate (exEnv [1, 0] [20]) 10 (exSt 11 10) exChain).1
+      (runUpdate (exEnv [1, 0] [20]) 10 (exSt 11 10) exChain).2.graph = true := by decide
+
+/-- `b = 1`, `e = 10`, both loaded; both files have been edited, the events arrived as `e.s`, `b.s`
+(the sort then yields `b` before `e`) -/
+def exFlat : RSt :=
+  { graph := (Graph.insertAsset [] (.asset ke) [.file "e" "s"]).insertAsset (.asset kb) [.file "b" "s"],
+    toReload := [.file "e" "s", .file "b" "s"] }
+
+theorem exFlat_graphOK : GraphOK exFlat.graph :=
+  C05_insert_keeps_inverse _ (C05_insert_keeps_inverse [] graphOK_nil (.asset ke) [.file "e" "s"]) (.asset kb)
+    [.file "b" "s"]
+
+theorem exEnv_unchanged (b e b' e' : List UInt8) :
+    ∀ id ext, Dep.file id ext ∉ [Dep.file "b" "s", Dep.file "e" "s"] →
+      (exEnv b' e').read 0 id ext = (exEnv b e).read 0 id ext := by
+  intro id ext h
+  simp only [exEnv]
+  split
+  · rename_i h2; exact absurd (by rw [h2.1, h2.2]; exact List.mem_cons_self) h
+  · split
+    · rename_i h2; exact absurd (by rw [h2.1, h2.2]; exact List.mem_cons_of_mem _ List.mem_cons_self) h
+    · rfl
+
+/-- a registered, cached, dynamic asset whose cached value is NOT what re-evaluating its loader
+against the current source and cache returns -/
+def StaleAt (env : Env) (fuel : Nat) (x : St × RSt) (k : Key) : Prop :=
+  ∃ node c v, x.2.graph.get (.asset k) = some node ∧ node.typed = true ∧ x.1.lookup k = some c ∧ c.dyn = true ∧
+    reloadHit env fuel x.1 k = true ∧ reloadOut env fuel x.1 k = .ok v ∧ v ≠ c.val
+
+theorem StaleAt.not_settled {env : Env} {fuel : Nat} {x : St × RSt} {k : Key} (h : StaleAt env fuel x k) :
+    ¬ Settled env fuel x.1 x.2.graph := by
+  obtain ⟨node, c, v, hg, ht, hc, hd, _, ho, hv⟩ := h
+  intro hs
+  rcases (hs k node c hg ht hc hd).res with ⟨h1, _⟩ | ⟨e, h1, _⟩
+  · rw [ho] at h1; exact hv (by simpa using h1)
+  · rw [ho] at h1; cases h1
+
+def staleAtB (env : Env) (fuel : Nat) (x : St × RSt) (k : Key) : Bool :=
+  match x.2.graph.get (.asset k), x.1.lookup k with
+  | some node, some c =>
+    node.typed && c.dyn && reloadHit env fuel x.1 k &&
+      (match reloadOut env fuel x.1 k with
+       | .ok v => decide (v ≠ c.val)
+       | _ => false)
+  | _, _ => false
+
+theorem staleAt_of_check {env : Env} {fuel : Nat} {x : St × RSt} {k : Key} (h : staleAtB env fuel x k = true) :
+    StaleAt env fuel x k := by
+  unfold staleAtB at h
+  cases hg : x.2.graph.get (.asset k) with
+  | none => rw [hg] at h; cases h
+  | some node =>
+    cases hc : x.1.lookup k with
+    | none => rw [hg, hc] at h; cases h
+    | some c =>
+      rw [hg, hc] at h
+      simp only [Bool.and_eq_true] at h
+      obtain ⟨⟨⟨h1, h2⟩, h3⟩, h4⟩ := h
+      cases ho : reloadOut env fuel x.1 k with
+      | ok v =>
+        rw [ho] at h4
+        exact ⟨node, c, v, hg, h1, hc, h2, h3, ho, by simpa using h4⟩
+      | err e => rw [ho] at h4; cases h4
+      | panicked => rw [ho] at h4; cases h4
+      | diverged => rw [ho] at h4; cases h4
+
+/-- **F-C05e: the statement without `hrewire` is false.** Scripts before: `b = 1`, `e = 10`; after:
+`b = 2 +S0:e`, `e = 20`; both edits notified, events in the order `e.s`, `b.s`. Every hypothesis of
+`C05_pass_converges_partial` except `hrewire` holds, and after the pass `b` holds `12` although
+re-evaluating its loader gives `22`: `b` was rebuilt from the stale `e`, and `e` was reloaded after
+it. (With the events in the other order the pass converges: the outcome depends on the iteration
+order of a hash set.) -/
+theorem C05_full_statement_false_rewire :
+    ∃ (env env' : Env) (fuel : Nat) (s : St) (r : RSt) (changed : List Dep) (rank : Dep → Nat),
+      env.Steady ∧ env'.Steady ∧ SameLoaders env env' ∧ Settled env fuel s r.graph ∧ GraphOK r.graph ∧
+      (∀ a rs b, r.graph.rdepsOf a = some rs → b ∈ rs → rank b < rank a) ∧
+      r.dead = false ∧ r.graph.length + 1 ≤ fuel ∧
+      (∀ id ext, Dep.file id ext ∉ changed → env'.read 0 id ext = env.read 0 id ext) ∧
+      (∀ id, Dep.dir id ∉ changed → env'.readDir 0 id = env.readDir 0 id) ∧
+      (∀ d, d ∈ changed → d ∈ r.toReload) ∧
+      NoMissInPass env' fuel (updateSteps env' fuel s r) ∧
+      ReloadsReturn env' fuel (updateSteps env' fuel s r) ∧
+      ¬ NoRewireOntoPending env' fuel (updateSteps env' fuel s r) ∧
+      StaleAt env' fuel (runUpdate env' fuel s r) kb ∧
+      (runUpdate env' fuel s r).1.lookup kb = some ⟨.int 12, true, 1, true, 1⟩ ∧
+      reloadOut env' fuel (runUpdate env' fuel s r).1 kb = .ok (.int 22) := by
+  have hstale : StaleAt (exEnv [2, 0] [20]) 10 (runUpdate (exEnv [2, 0] [20]) 10 (exSt 1 10) exFlat) kb :=
+    staleAt_of_check (by decide)
+  have hS := exEnv_steady [1] [10]
+  have hS' := exEnv_steady [2, 0] [20]
+  have hL := exEnv_same [1] [10] [2, 0] [20]
+  have hset : Settled (exEnv [1] [10]) 10 (exSt 1 10) exFlat.graph := settled_of_check (by decide)
+  have hrank : ∀ a rs b, exFlat.graph.rdepsOf a = some rs → b ∈ rs → exRank b < exRank a :=
+    rank_of_entries (by decide)
+  have hfile := exEnv_unchanged [1] [10] [2, 0] [20]
+  have hnot : ∀ d, d ∈ [Dep.file "b" "s", Dep.file "e" "s"] → d ∈ exFlat.toReload := by decide
+  have hmiss : NoMissInPass (exEnv [2, 0] [20]) 10 (updateSteps (exEnv [2, 0] [20]) 10 (exSt 1 10) exFlat) :=
+    noMiss_of_check (by decide)
+  have hret : ReloadsReturn (exEnv [2, 0] [20]) 10 (updateSteps (exEnv [2, 0] [20]) 10 (exSt 1 10) exFlat) :=
+    reloadsReturn_of_check (by decide)
+  refine ⟨exEnv [1] [10], exEnv [2, 0] [20], 10, exSt 1 10, exFlat, [.file "b" "s", .file "e" "s"], exRank,
+    hS, hS', hL, hset, exFlat_graphOK, hrank, rfl, by decide, hfile, fun _ _ => rfl, hnot, hmiss, hret, ?_,
+    hstale, by decide, by decide⟩
+  intro hrew
+  exact hstale.not_settled
+    (C05_pass_converges_partial _ _ 10 _ _ _ hS hS' hL hset exFlat_graphOK hrank rfl (by decide) hfile
+      (fun _ _ => rfl) (fun d hd _ => hnot d hd) hmiss hret hrew).1
+
 /-! Non-vacuity -/
 example : GraphOK (Graph.insertAsset [] (.asset ⟨0, "a"⟩) [.file "a" "s"]) :=
   C05_insert_keeps_inverse [] graphOK_nil _ _
